@@ -59,6 +59,7 @@ Sub g_sub[16];
 int g_nsub;
 int g_exec[32];
 int g_nexec;
+int g_vb;
 
 struct Shared {
     std::future<int> fval[16];
@@ -275,6 +276,112 @@ void body_t(const Prog& p)
     MC_CHECK(live_blocks() == base_blocks, "leak", "%zu arena blocks not freed", live_blocks() - base_blocks);
 }
 
+// Two objects of one type: a queued modification of A reads B through B.lock_shared(), i.e. A's drain contains a drain
+// of B on the same thread.  Whatever the library shares between objects of one type (or between nested drains of one
+// thread) must not mix up their queues: everything runs once, on its own object, nothing is stranded.
+template<class M>
+void body_two(int variant)
+{
+    using DG = lg::deferred_guarded<Pair, M>;
+    g_nsub = g_nexec = 0;
+    g_vb = 0;
+    hx::win_reset();
+    size_t base_blocks = live_blocks();
+    DG* A = new DG(0);
+    DG* B = new DG(0);
+    int r = spawn([A, B] {
+        auto ha = A->lock_shared();
+        auto hb = B->lock_shared();
+        (void)hx::read_pair(*ha, "reader of A");
+        (void)hx::read_pair(*hb, "reader of B");
+        point();
+    });
+    int w = spawn([A, B, variant] {
+        B->modify_detach([](Pair& x) {
+            record_exec(1);
+            hx::WriteWin w(&x, "modification of B");
+            ++x.a;
+            point();
+            ++x.b;
+        });
+        A->modify_detach([B](Pair& x) {
+            record_exec(2);
+            hx::WriteWin w(&x, "modification of A reading B");
+            int vb = hx::read_pair(*B->lock_shared(), "nested read of B");  // drains B first
+            // B's first modification was submitted (by this thread) before this one: it must be visible; in variant 1
+            // B's second one may or may not have been submitted yet when this (possibly queued) functor finally runs
+            MC_CHECK(vb >= 1 && vb <= 2, "stranded", "B read from inside a modification of A: %d (its earlier modification was not applied)", vb);
+            g_vb = vb;
+            x.a += vb;
+            point();
+            x.b += vb;
+        });
+        if (variant == 1)
+            B->modify_detach([](Pair& x) {
+                record_exec(4);
+                hx::WriteWin w(&x, "second modification of B");
+                ++x.a;
+                ++x.b;
+            });
+        A->modify_detach([](Pair& x) {
+            record_exec(3);
+            hx::WriteWin w(&x, "second modification of A");
+            ++x.a;
+            point();
+            ++x.b;
+        });
+    });
+    join(r);
+    join(w);
+    int total = variant == 1 ? 5 : 4;
+    {
+        auto h = A->lock_shared();
+        int v = hx::read_pair(*h, "read of A after the first phase");
+        MC_CHECK(v == g_vb + 1, "lost-modification", "A is %d after its two modifications (expected %d)", v, g_vb + 1);
+    }
+    // second phase: the state the first (nested) drain left behind must not disturb a later queued modification of B
+    int r2 = spawn([B] {
+        auto hb = B->lock_shared();
+        (void)hx::read_pair(*hb, "second reader of B");
+        point();
+    });
+    int w2 = spawn([B] {
+        B->modify_detach([](Pair& x) {
+            record_exec(5);
+            hx::WriteWin w(&x, "late modification of B");
+            ++x.a;
+            point();
+            ++x.b;
+        });
+    });
+    join(r2);
+    join(w2);
+    {
+        auto h = A->lock_shared();
+        int v = hx::read_pair(*h, "final read of A");
+        MC_CHECK(v == g_vb + 1, "lost-modification", "A is %d after its two modifications (expected %d)", v, g_vb + 1);
+    }
+    {
+        auto h = B->lock_shared();
+        int v = hx::read_pair(*h, "final read of B");
+        MC_CHECK(v == (variant == 1 ? 3 : 2), "lost-modification", "B is %d after its modifications", v);
+    }
+    MC_CHECK(g_nexec == total, "stranded", "after quiescence and lock_shared() on both objects %d of %d modifications have run",
+             g_nexec, total);
+    for (int id = 1; id <= 5; id++) {
+        if (id == 4 && variant != 1) continue;
+        int cnt = 0;
+        for (int i = 0; i < g_nexec; i++) cnt += g_exec[i] == id;
+        MC_CHECK(cnt == 1, "not-once", "modification #%d ran %d times", id, cnt);
+    }
+    uint64_t o = 0;
+    for (int i = 0; i < g_nexec; i++) o = o * 17 + g_exec[i];
+    observe(o);
+    delete A;
+    delete B;
+    MC_CHECK(live_blocks() == base_blocks, "leak", "%zu arena blocks not freed", live_blocks() - base_blocks);
+}
+
 void body(const Prog& p)
 {
     switch (p.mtype) {
@@ -332,6 +439,22 @@ void make_items(const Options& o, std::vector<Item>& items)
         hx::multisets((int)seq1.size(), 3, [&](const std::vector<int>& idx) {
             emit(mt, {seq1[idx[0]], seq1[idx[1]], seq1[idx[2]]}, 2, 3);
         });
+        for (int variant : {0, 1}) {
+            Item it;
+            it.name = std::string("two deferred_guarded<Pair,") + mname[mt] + "> objects | reader holds shared handles on A and B | B.modify_detach, " +
+                      "A.modify_detach(reads B through lock_shared: nested drain)" + (variant ? ", B.modify_detach" : "") +
+                      ", A.modify_detach || lock_shared(A) || second reader of B | B.modify_detach || then lock_shared() on both";
+            it.body = [mt, variant] {
+                switch (mt) {
+                    case 0: body_two<std::shared_timed_mutex>(variant); break;
+                    case 1: body_two<std::shared_mutex>(variant); break;
+                    case 2: body_two<std::mutex>(variant); break;
+                    default: body_two<std::timed_mutex>(variant); break;
+                }
+            };
+            it.bounds = hx::tier_bounds(o, 3, 4);
+            items.push_back(it);
+        }
         if (!thorough) {
             // quick: a reader, a submitter of one and a submitter of two modifications (two queued + one direct)
             for (int r : {RD0, LOADK})
